@@ -1689,6 +1689,7 @@ package runtime
 // float; a fixed number of digits (%.14g) does not.
 //@ func (Value).ToString
 //@   prop C17
+//@   standalone
 //@   arith int
 //@   norte
 //@   nocover
